@@ -67,3 +67,12 @@ Print Assumptions C05_generic_conv.
 Theorem C05_generic_normalized : forall coeffs, Signalo.Model.Generic.g_normalized Signalo.Base.Arith.Qar coeffs = Signalo.Model.Convolve.normalized coeffs.
 Proof. exact Signalo.Proofs.Generic.gq_normalized. Qed.
 Print Assumptions C05_generic_normalized.
+
+(* No false alarm: the boolean reading of this property that the correspondence check evaluates on the IMPLEMENTATION's
+   outputs (Check/C05.v, verdict bit 2) can never fail on outputs that agree with the model (bit 1 clear); side conditions,
+   where there are any, are boolean and say which recorded observations the model comparison does not cover. *)
+From Coq Require Import NArith.
+From Signalo Require Base.Report Check.C05 Proofs.Sound_C05.
+Theorem C05_checker_no_false_alarm : forall c : Signalo.Check.C05.case, Signalo.Proofs.Sound_C05.wf c = true -> N.land (Signalo.Base.Report.code (Signalo.Check.C05.check c)) 3 <> 2%N.
+Proof. exact Signalo.Proofs.Sound_C05.C05_check_sound. Qed.
+Print Assumptions C05_checker_no_false_alarm.
